@@ -16,12 +16,13 @@ from harness import common
 from harness.common import Failure, lean_run
 
 PROP_MODULES = ["ArmiVerif.Props.C14"]
-PARTIAL = ("block-level lookup theorems cover (a) histories with stationary blocks, tracking on, no purge "
-           "(blocks_found_run_partial) and (b) arbitrary histories incl. purges when no stationary block is involved "
-           "(blocks_run_with_purge: found and nothing else found); stationary blocks combined with purging, and a fresh "
-           "assembly carrying stationary blocks (finding), are covered by correspondence + oracle only; "
-           "names are identified with the objects they resolve to in the model (string renaming by Assembly.renumber is "
-           "checked by the oracle only); SFP cell coordinates, numMoves / lastLocationLabel bookkeeping and the "
+PARTIAL = ("block-level lookup theorem blocks_run_with_purge covers arbitrary histories (purges, either tracking "
+           "setting, stationary blocks changing hands between core/pool assemblies): every block present is found, nothing "
+           "else is; its only excluded point is a FRESH assembly carrying stationary blocks entering through dischargeSwap "
+           "(findings discharge-fresh-stationary-block-names / stale-block-key-returns-purged-block, characterised as "
+           "theorems of the name-level layer and compared with the real names on every run); "
+           "the identity-level state machine identifies names with the objects they resolve to; renaming (renumber / makeUnique) "
+           "is modelled in a separate name-level layer (nCoreAdd / nDischarge / nPurge) tied by name probes around fresh discharges; SFP cell coordinates, numMoves / lastLocationLabel bookkeeping and the "
            "symmetry-factor rescaling of volume-integrated parameters on moves are not modelled")
 ASSUMPTIONS = [
     "copy.deepcopy + makeUnique yields a fresh assembly sharing nothing with its source",
@@ -29,6 +30,7 @@ ASSUMPTIONS = [
 ]
 
 _BASE = {}
+NAME_PROBES = []
 
 
 def base_reactor(track):
@@ -403,6 +405,53 @@ def run_sequence(ctx, track, stat, nops, seed, compare=True):
     return fails, req, impl
 
 
+def _bname(b):
+    import re
+    m = re.match(r"^B(-?\d+)-(\d+)$", b.name)
+    return (int(m.group(1)), int(m.group(2)))
+
+
+class NameProbe:
+    """Name-level correspondence around one fresh dischargeSwap (Model/Shuffle.lean `nDischarge` / `nPurge`)."""
+
+    def __init__(self, w, inc, out, later):
+        self.w, self.inc, self.out, self.later = w, inc, out, later
+        self.next = int(w.r.p.maxAssemNum)
+        self.out_name = out.name
+
+        def asm(a):
+            return "[%d,%d,[%s]]" % (w.n(a), a.getNum(), ",".join(
+                "[%d,%d,%d,%d]" % ((w.n(b),) + _bname(b) + (1 if w.is_stat(b) else 0,)) for b in a))
+        self.req = "names %s %d %s %s %s" % ("T" if w.track else "F", self.next, asm(inc), asm(out), "T" if later else "F")
+        self.keys = [(_bname(b), b.name) for b in list(inc) + list(out)]
+        self.line = None
+
+    def _look(self):
+        bb = self.w.core.blocksByName
+        seen, out = set(), []
+        for k, nm in self.keys:
+            if k in seen:
+                continue
+            seen.add(k)
+            v = bb.get(nm)
+            out.append("[%d,%d,%s]" % (k[0], k[1], self.w.n(v) if v is not None else "_"))
+        return "[" + ",".join(out) + "]"
+
+    def after_discharge(self):
+        w, inc, out = self.w, self.inc, self.out
+        self.keys += [(_bname(b), b.name) for b in list(inc) + list(out)]
+
+        def blocks(a):
+            return "[" + ",".join("[%d,%d,%d]" % ((w.n(b),) + _bname(b)) for b in a) + "]"
+        bn = w.core.assembliesByName
+        by = [bn.get(inc.name), bn.get(self.out_name)]
+        self.line = "inc=%d%s out=%s byName=[%s] bbn=%s" % (
+            inc.getNum(), blocks(inc), blocks(out), ",".join(str(w.n(v)) if v is not None else "_" for v in by), self._look())
+
+    def after_purge(self):
+        self.line += " afterPurge=" + self._look()
+
+
 def excluded_points(ctx):
     """Points outside the theorems' hypotheses, run on the real code (oracle only)."""
     import random
@@ -434,10 +483,14 @@ def excluded_points(ctx):
 
         new1 = fresh_assembly(w, rng)
         out1 = next(a for a in fuel if same_layout(new1, a))
-        do(("dnew", new1, out1), "dischargeSwap(fresh1, %s)" % out1.name)
+        p1 = NameProbe(w, new1, out1, later=False)
+        if do(("dnew", new1, out1), "dischargeSwap(fresh1, %s)" % out1.name) or True:
+            p1.after_discharge()
         new2 = fresh_assembly(w, rng)
         out2 = next(a for a in fuel if a is not out1 and a.parent is w.core and same_layout(new2, a))
+        p2 = NameProbe(w, new2, out2, later=True)
         do(("dnew", new2, out2), "dischargeSwap(fresh2, %s)" % out2.name)
+        p2.after_discharge()
         partner = next(a for a in w.core if a is not new1 and a is not new2 and same_layout(new1, a))
         do(("swap", new1, partner), "swap(fresh1, %s)" % partner.name)
         others = [a for a in w.core if a not in (new1, new2, partner)]
@@ -450,6 +503,9 @@ def excluded_points(ctx):
                 do(("dsfp", pooled, tgt), "dischargeSwap(pooled %s, %s)" % (pooled.name, tgt.name))
         # finally purge an assembly that carries a renamed (exchanged) stationary block
         do(("remove", new2, False), "removeAssembly(fresh2, discharge=False)")
+        p2.after_purge()
+        for pr in (p1, p2):
+            NAME_PROBES.append((dict(case, probe=pr.req[:60]), pr.req, pr.line))
         contents_ok(w, fails, case, "end of stream", list(w.core) + list(w.sfp))
         ctx.distinct.add(("excluded-stream", track, stat))
         ctx.count("excluded: fresh discharge with stationary blocks (track=%s, %s)" % (track, stat))
@@ -527,8 +583,15 @@ def run(ctx):
         ctx.case(("seq", track, stat, nops, seed), nontrivial=True,
                  sample={"case": case, "first ops": req[1:4]})
         ctx.count("sequences track=%s stationary=%s" % (track, stat))
+    del NAME_PROBES[:]
     for f in excluded_points(ctx):
         ctx.fail(f.key, f.clause, f.case, f.observed, f.expected, f.note)
+    if NAME_PROBES:
+        nm = lean_run("Shuffle", [q for _, q, _ in NAME_PROBES])
+        ctx.compare("Model/Shuffle.lean names layer (nDischarge / nPurge) vs real names and blocksByName",
+                    [c for c, _, _ in NAME_PROBES], nm, [l for _, _, l in NAME_PROBES])
+        ctx.evaluations += len(NAME_PROBES)
+        ctx.count("name-level probes", len(NAME_PROBES))
     # one driver process per sequence is not needed: `init` resets the model state
     model = lean_run("Shuffle", allreq)
     ctx.compare("Model/Shuffle.lean state vs real core/sfp", allcases, model, allimpl)
